@@ -1070,6 +1070,21 @@ def gen_C09(tier, seed):
         p.frame(lf, 'FR', [c])
         p.write(1)
         progs.append(p.build())
+    # header IDs that look like numbers (digits only, a sign, blanks inside): text all the same - left-justified in 65 characters
+    for i, hid in enumerate(['20240131', '4711', '0', '-12', '12 34', '007', '1' * 65]):
+        p = Prog(f'C09-digitid-{i}', {'kind': 'digitid'})
+        p.file(1, vrl=512)
+        how = ['kw', 'ready', 'set'][i % 3]
+        if how == 'set':
+            lf = p.lf(1, fh_id='PLACEHOLDER')
+            p.set_header(lf, 'header_id', hid)
+        else:
+            lf = p.lf(1, fh_id=hid, **({'header': 'ready'} if how == 'ready' else {}))
+        p.origin(lf, name='O')
+        c = p.channel(lf, 'CH', data=np.arange(3, dtype='float64'))
+        p.frame(lf, 'FR', [c])
+        p.write(1)
+        progs.append(p.build())
     # sequence numbers that are no positive integer of at most ten digits (keyword, ready-made header, assigned later): refused, or
     # the field still holds the decimal digits of the number
     for i, (seq, how) in enumerate([(True, 'kw'), (True, 'set'), (2.5, 'kw'), (2.5, 'set'), (-4, 'set'), (0, 'set'), (10 ** 10, 'set'), ('12', 'set'), (7.0, 'set'), (True, 'ready')]):
